@@ -530,3 +530,252 @@ Proof.
   - repeat constructor; try apply service_clean; try apply fmt_fixed_clean. apply values_clean.
   - reflexivity.
 Qed.
+
+(** ** metadata lines *)
+Definition not_legacy (k : str) : bool :=
+  negb (str_eqb k (cs "Localizacion")) && negb (str_eqb k (cs "Area_ref")) && negb (str_eqb k (cs "kexp")).
+Definition clean_key (k : str) : bool := edgesb k && no 58 k && not_legacy k.
+
+Lemma legacy_key_id k : not_legacy k = true -> legacy_key k = k.
+Proof.
+  unfold not_legacy, legacy_key. intros H. apply andb_true_iff in H as [H H3]. apply andb_true_iff in H as [H1 H2].
+  apply negb_true_iff in H1, H2, H3. rewrite H1, H2, H3. reflexivity.
+Qed.
+
+Lemma trim_idem s : trim (trim s) = trim s.
+Proof.
+  pose proof (trim_clean s) as H. destruct (trim s) as [|a m] eqn:E; [reflexivity|]. apply trim_edges. exact H.
+Qed.
+
+Lemma edges_app_l (p r : str) : edgesb p = true -> edgesb r = true -> edgesb (p ++ r) = true.
+Proof.
+  intros Hp Hr. destruct p as [|a m]; [discriminate|]. cbn [edgesb] in Hp. apply andb_true_iff in Hp as [Ha _].
+  change ((a :: m) ++ r) with (a :: (m ++ r)). cbn [edgesb]. rewrite Ha. cbn [andb].
+  change (a :: m ++ r) with ((a :: m) ++ r). destruct r as [|b r']; [discriminate|]. rewrite last_app_ne by discriminate.
+  cbn [edgesb] in Hr. apply andb_true_iff in Hr as [_ Hr]. exact Hr.
+Qed.
+
+Lemma edges_app_last (p r : str) : edgesb p = true -> r <> [] -> is_ws (last r 0) = false -> edgesb (p ++ r) = true.
+Proof.
+  intros Hp Hr Hl. destruct p as [|a m]; [discriminate|]. cbn [edgesb] in Hp. apply andb_true_iff in Hp as [Ha _].
+  change ((a :: m) ++ r) with (a :: (m ++ r)). cbn [edgesb]. rewrite Ha. cbn [andb].
+  change (a :: m ++ r) with ((a :: m) ++ r). rewrite last_app_ne by exact Hr. rewrite Hl. reflexivity.
+Qed.
+
+Theorem meta_roundtrip m :
+  clean_key (m_key m) = true -> clean_cmtb (m_value m) = true -> parse_meta (show_meta m) = POk m.
+Proof.
+  destruct m as [k v]. cbn [m_key m_value]. unfold clean_key. intros Hk Hv.
+  apply andb_true_iff in Hk as [Hk HL]. apply andb_true_iff in Hk as [Ek N58].
+  unfold parse_meta, show_meta. cbn [m_key m_value].
+  assert (Pre : forall r, trim (cs "#META " ++ k ++ r) = cs "#META " ++ trim_end (k ++ r) /\ True).
+  { intros r. split; [|exact Logic.I]. unfold trim. cbn [cs bs map list_ascii_of_string app].
+    rewrite trim_start_nonws by reflexivity. repeat (rewrite trim_end_cons_nonws by reflexivity).
+    change (is_ws 32) with true.
+    (* the space after #META is kept because something not white follows *)
+    rewrite trim_end_cons_keep; [reflexivity|].
+    destruct k as [|a k']; [discriminate|]. cbn [edgesb] in Ek. apply andb_true_iff in Ek as [Ea _]. apply negb_true_iff in Ea.
+    cbn [app]. rewrite trim_end_cons_nonws by exact Ea. discriminate. }
+  destruct v as [|b v'].
+  - (* empty value: the line ends with ": ", trimmed to ":" *)
+    destruct (Pre (cs ": ")) as [T _]. rewrite app_nil_r, T.
+    assert (TE : trim_end (k ++ cs ": ") = k ++ [58]).
+    { change (cs ": ") with ([58] ++ [32]). rewrite app_assoc. 
+      assert (E : edgesb (k ++ [58]) = true) by (apply edges_app_l; [exact Ek|reflexivity]).
+      pose proof (trim_space_back _ E) as B. unfold trim in B.
+      destruct (k ++ [58]) as [|a m] eqn:E2; [discriminate|]. cbn [edgesb] in E. apply andb_true_iff in E as [Ea _]. apply negb_true_iff in Ea.
+      cbn [app] in B. rewrite trim_start_nonws in B by exact Ea. exact B. }
+    rewrite TE. change (cs "#META ") with [35; 77; 69; 84; 65; 32]. cbn [app length Nat.leb firstn skipn].
+    change (forallb is_ascii [35; 77; 69; 84; 65]) with true. cbn [andb negb].
+    change (32 :: k ++ [58]) with ((32 :: k) ++ [58] ++ []). rewrite break_app_no by (cbn [no forallb]; exact N58).
+    cbn [app break_at]. rewrite N.eqb_refl. rewrite app_nil_r.
+    rewrite (trim_space_front k Ek), (trim_edges k Ek), (legacy_key_id k HL). reflexivity.
+  - destruct (Pre (cs ": " ++ b :: v')) as [T _]. rewrite T.
+    assert (Ekv : edgesb (k ++ cs ": " ++ b :: v') = true).
+    { apply edges_app_last; [exact Ek|discriminate|]. change (cs ": " ++ b :: v') with ([58; 32] ++ (b :: v')).
+      rewrite last_app_ne by discriminate. pose proof Hv as Hv2. cbn [clean_cmtb] in Hv2. apply andb_true_iff in Hv2 as [_ Hv2].
+      now apply negb_true_iff in Hv2. }
+    pose proof (trim_edges _ Ekv) as TT. unfold trim in TT.
+    destruct k as [|a k'] eqn:EK; [discriminate|]. cbn [edgesb] in Ek. pose proof Ek as Ek2. apply andb_true_iff in Ek2 as [Ea _]. apply negb_true_iff in Ea.
+    cbn [app] in TT. rewrite trim_start_nonws in TT by exact Ea. cbn [app]. rewrite TT.
+    change (cs "#META ") with [35; 77; 69; 84; 65; 32]. cbn [app length Nat.leb firstn skipn].
+    change (forallb is_ascii [35; 77; 69; 84; 65]) with true. cbn [andb negb].
+    change (32 :: a :: k' ++ cs ": " ++ b :: v') with ((32 :: a :: k') ++ [58] ++ (32 :: b :: v')).
+    rewrite break_app_no by (cbn [no forallb]; exact N58). cbn [app break_at]. rewrite N.eqb_refl. rewrite app_nil_r.
+    rewrite (trim_space_front (a :: k') Ek), (trim_edges (a :: k') Ek), (legacy_key_id _ HL).
+    assert (Ev : edgesb (b :: v') = true) by exact Hv.
+    rewrite (trim_space_front (b :: v') Ev), (trim_edges _ Ev). reflexivity.
+Qed.
+
+(** ** a whole factors file *)
+Lemma split_join1 c toks : forall x, no c x = true -> Forall (fun t => no c t = true) toks ->
+  split_on c (join [c] (x :: toks)) = x :: toks.
+Proof.
+  induction toks as [|y r IH]; intros x Hx Ht.
+  - cbn [join]. apply split_no, Hx.
+  - rewrite join_cons2. rewrite split_app_no by exact Hx.
+    change ([c] ++ join [c] (y :: r)) with (c :: join [c] (y :: r)). rewrite split_on_hit.
+    inversion Ht as [|? ? Hy Hr]; subst. rewrite IH by assumption. rewrite app_nil_r. reflexivity.
+Qed.
+
+Definition no_cr_end (l : str) : Prop := l <> [] /\ last l 0 <> 13.
+
+Lemma strip_cr_id l : last l 0 <> 13 -> strip_cr l = l.
+Proof.
+  intros H. unfold strip_cr. destruct (rev l) as [|c r] eqn:E; [reflexivity|].
+  assert (L : l = rev r ++ [c]) by (rewrite <- (rev_involutive l), E; reflexivity).
+  rewrite L in H. rewrite last_last in H. destruct (N.eqb_spec c 13); [contradiction|reflexivity].
+Qed.
+
+Lemma lines_of_id ls : Forall no_cr_end ls -> lines_of ls = ls.
+Proof.
+  induction 1 as [|x l [Hx Hc] Hl IH]; [reflexivity|]. destruct l as [|y l].
+  - cbn [lines_of]. destruct x; [contradiction|reflexivity].
+  - change (lines_of (x :: y :: l)) with (strip_cr x :: lines_of (y :: l)). rewrite IH, (strip_cr_id x Hc). reflexivity.
+Qed.
+
+Lemma fields_trim s : fields (trim s) = fields s.
+Proof. unfold fields. rewrite trim_idem. reflexivity. Qed.
+Lemma parse_factor_trim s : parse_factor (trim s) = parse_factor s.
+Proof. unfold parse_factor. rewrite fields_trim. reflexivity. Qed.
+Lemma parse_meta_trim s : parse_meta (trim s) = parse_meta s.
+Proof. unfold parse_meta. rewrite trim_idem. reflexivity. Qed.
+
+Lemma trim_head c r : is_ws c = false -> exists r', trim (c :: r) = c :: r'.
+Proof. intros H. unfold trim. rewrite trim_start_nonws by exact H. rewrite trim_end_cons_nonws by exact H. eauto. Qed.
+
+Lemma show_factor_head x : exists c0 rest, show_factor x = c0 :: rest /\ 65 <= c0 /\ c0 <= 90.
+Proof.
+  unfold show_factor. destruct (f_cr x); cbn [carrier_name cs bs map list_ascii_of_string app];
+    eexists _, _; (split; [reflexivity|]); cbn; split; discriminate.
+Qed.
+
+Lemma upper_not_ws c : 65 <= c -> c <= 90 -> is_ws c = false.
+Proof.
+  intros H1 H2. unfold is_ws.
+  repeat match goal with |- context [N.leb ?a ?b] => destruct (N.leb_spec a b); try lia end;
+  repeat match goal with |- context [N.eqb ?a ?b] => destruct (N.eqb_spec a b); try lia end; reflexivity.
+Qed.
+
+Lemma factor_line_kind x : is_data_line (trim (show_factor x)) = true /\ is_meta_line (trim (show_factor x)) = false.
+Proof.
+  destruct (show_factor_head x) as (c0 & rest & E & H1 & H2). rewrite E.
+  destruct (trim_head c0 rest (upper_not_ws c0 H1 H2)) as (r' & ->).
+  unfold is_data_line, is_meta_line.
+  change (cs "vector,") with (118 :: [101; 99; 116; 111; 114; 44]). change (cs "#META") with (35 :: [77; 69; 84; 65]).
+  change (cs "#CTE_") with (35 :: [67; 84; 69; 95]). cbn [starts_with].
+  destruct (N.eqb_spec 35 c0); [lia|]. destruct (N.eqb_spec 118 c0); [lia|]. split; reflexivity.
+Qed.
+
+Lemma meta_line_kind m : is_meta_line (trim (show_meta m)) = true /\ is_data_line (trim (show_meta m)) = false.
+Proof.
+  unfold show_meta. set (r := m_key m ++ cs ": " ++ m_value m).
+  assert (E : exists r', trim (cs "#META " ++ r) = [35; 77; 69; 84; 65] ++ r').
+  { unfold trim. change (cs "#META " ++ r) with (35 :: 77 :: 69 :: 84 :: 65 :: 32 :: r).
+    rewrite trim_start_nonws by reflexivity. repeat (rewrite trim_end_cons_nonws by reflexivity). eexists. reflexivity. }
+  destruct E as (r' & ->). split; reflexivity.
+Qed.
+
+Definition good_meta (m : Meta) : Prop :=
+  clean_key (m_key m) = true /\ clean_cmtb (m_value m) = true /\ no 10 (m_key m) = true /\ no 10 (m_value m) = true.
+Definition good_factor (x : Factor) : Prop :=
+  forallb (finite2 3) [ren (f_val x); nren (f_val x); co2 (f_val x)] = true /\ clean_cmtb (f_cmt x) = true /\ no 10 (f_cmt x) = true.
+Definition rt_factor (x : Factor) : Factor :=
+  mkFactor (f_cr x) (f_src x) (f_dest x) (f_step x) (mkRNC (rb 3 (ren (f_val x))) (rb 3 (nren (f_val x))) (rb 3 (co2 (f_val x)))) (f_cmt x).
+
+Lemma rng_no10 l : forallb rng l = true -> no 10 l = true.
+Proof.
+  apply forallb_imp. intros c H. unfold rng in H. apply andb_true_iff in H as [H _]. apply N.leb_le in H.
+  destruct (N.eqb_spec c 10); [lia|reflexivity].
+Qed.
+
+Lemma show_meta_no10 m : good_meta m -> no 10 (show_meta m) = true.
+Proof. intros (_ & _ & K & V). unfold show_meta. rewrite !no_app, K, V. reflexivity. Qed.
+
+Lemma show_comment_no10 c : no 10 c = true -> no 10 (show_comment c) = true.
+Proof. intros H. unfold show_comment. destruct c; [reflexivity|]. rewrite no_app, H. reflexivity. Qed.
+
+Lemma show_factor_no10 x : good_factor x -> no 10 (show_factor x) = true.
+Proof.
+  intros (_ & _ & C). unfold show_factor. rewrite !no_app, !(rng_no10 _ (fmt_fixed_rng _ _)), (show_comment_no10 _ C).
+  destruct (f_cr x), (f_src x), (f_dest x), (f_step x); reflexivity.
+Qed.
+
+Lemma show_meta_line_end m : good_meta m -> no_cr_end (show_meta m).
+Proof.
+  intros (_ & Hv & _ & _). unfold show_meta. split; [discriminate|].
+  destruct (m_value m) as [|b v] eqn:E.
+  - rewrite app_nil_r, app_assoc, last_app_ne by discriminate. discriminate.
+  - rewrite !app_assoc, last_app_ne by discriminate. cbn [clean_cmtb] in Hv. apply andb_true_iff in Hv as [_ Hv].
+    apply negb_true_iff in Hv. intros K. rewrite K in Hv. discriminate.
+Qed.
+
+Lemma show_factor_line_end x : good_factor x -> no_cr_end (show_factor x).
+Proof.
+  intros (_ & Hc & _). destruct (show_factor_head x) as (c0 & rest & E & _). split; [rewrite E; discriminate|].
+  unfold show_factor, show_comment. destruct (f_cmt x) as [|b v] eqn:EC.
+  - rewrite app_nil_r. rewrite !app_assoc.
+    pose proof (fmt_fixed_rng 3 (co2 (f_val x))) as R. pose proof (fmt_fixed_clean 3 (co2 (f_val x))) as Cn.
+    destruct (fmt_fixed 3 (co2 (f_val x))) as [|d ds] eqn:EF; [discriminate|]. rewrite last_app_ne by discriminate.
+    destruct (exists_last (l := d :: ds)) as (l' & z & EL); [discriminate|]. rewrite EL in R |- *. rewrite last_last.
+    rewrite forallb_app in R. apply andb_true_iff in R as [_ R]. cbn [forallb] in R. apply andb_true_iff in R as [R _].
+    unfold rng in R. apply andb_true_iff in R as [R _]. apply N.leb_le in R. lia.
+  - rewrite !app_assoc. rewrite last_app_ne by discriminate. cbn [clean_cmtb] in Hc. apply andb_true_iff in Hc as [_ Hc].
+    apply negb_true_iff in Hc. intros K. rewrite K in Hc. discriminate.
+Qed.
+
+Lemma pmap_ok {A B} (f : A -> pres B) (g : A -> B) l : (forall x, In x l -> f x = POk (g x)) -> pmap f l = POk (map g l).
+Proof.
+  induction l as [|x l IH]; intros H; [reflexivity|]. cbn [pmap map]. rewrite (H x) by now left. cbn [pbind].
+  rewrite IH by (intros; apply H; now right). reflexivity.
+Qed.
+
+Lemma pmap_map {A B C} (f : B -> pres C) (h : A -> B) l : pmap f (map h l) = pmap (fun x => f (h x)) l.
+Proof. induction l as [|x l IH]; [reflexivity|]. cbn [map pmap]. rewrite IH. reflexivity. Qed.
+
+Lemma filter_map_all {A} (p : A -> bool) l : (forall x, In x l -> p x = true) -> filter p l = l.
+Proof. induction l as [|x l IH]; intros H; [reflexivity|]. cbn [filter]. rewrite (H x) by now left. rewrite IH by (intros; apply H; now right). reflexivity. Qed.
+Lemma filter_map_none {A} (p : A -> bool) l : (forall x, In x l -> p x = false) -> filter p l = [].
+Proof. induction l as [|x l IH]; intros H; [reflexivity|]. cbn [filter]. rewrite (H x) by now left. apply IH. intros; apply H; now right. Qed.
+
+(** a factor set written by [Display] reads back as the same set: same metadata, same factors in the same order with
+    the same tags and comments, every value at the written precision *)
+Theorem factors_file_roundtrip f :
+  wmeta f <> [] -> wdata f <> [] -> Forall good_meta (wmeta f) -> Forall good_factor (wdata f) ->
+  parse_factors (show_factors f) = POk (mkFactors (wmeta f) (map rt_factor (wdata f))).
+Proof.
+  intros HA HB GA GB. unfold parse_factors, show_factors.
+  set (A := map show_meta (wmeta f)). set (B := map show_factor (wdata f)).
+  assert (EJ : join [10] A ++ [10] ++ join [10] B = join [10] (A ++ B)).
+  { unfold B. destruct (wdata f) as [|x r]; [contradiction|]. cbn [map]. rewrite join_app_cons.
+    unfold A. destruct (wmeta f); [contradiction|]. reflexivity. }
+  rewrite EJ.
+  assert (N10 : Forall (fun t => no 10 t = true) (A ++ B)).
+  { apply Forall_app. split; apply Forall_forall; intros t Ht; apply in_map_iff in Ht as (y & <- & Hy).
+    - apply show_meta_no10. rewrite Forall_forall in GA. now apply GA.
+    - apply show_factor_no10. rewrite Forall_forall in GB. now apply GB. }
+  assert (LE : Forall no_cr_end (A ++ B)).
+  { apply Forall_app. split; apply Forall_forall; intros t Ht; apply in_map_iff in Ht as (y & <- & Hy).
+    - apply show_meta_line_end. rewrite Forall_forall in GA. now apply GA.
+    - apply show_factor_line_end. rewrite Forall_forall in GB. now apply GB. }
+  assert (LN : lines (join [10] (A ++ B)) = A ++ B).
+  { unfold lines.
+    assert (NE : A ++ B <> []) by (unfold B; destruct (wdata f); [contradiction|]; destruct A; discriminate).
+    destruct (A ++ B) as [|x r] eqn:E; [contradiction|].
+    inversion N10 as [|? ? Hx Hr]; subst. rewrite split_join1 by assumption. apply lines_of_id. exact LE. }
+  rewrite LN, map_app, !filter_app.
+  rewrite (filter_map_all is_meta_line (map trim A)), (filter_map_none is_meta_line (map trim B)),
+          (filter_map_none is_data_line (map trim A)), (filter_map_all is_data_line (map trim B)).
+  - rewrite app_nil_r. cbn [app]. unfold A, B. rewrite !map_map, !pmap_map.
+    rewrite (pmap_ok _ (fun m => m)).
+    + cbn [pbind]. rewrite map_id. rewrite (pmap_ok _ rt_factor).
+      * reflexivity.
+      * intros x Hx. rewrite parse_factor_trim. rewrite Forall_forall in GB. destruct (GB x Hx) as (F1 & F2 & _).
+        apply factor_roundtrip; assumption.
+    + intros m Hm. rewrite parse_meta_trim. rewrite Forall_forall in GA. destruct (GA m Hm) as (K & V & _).
+      apply meta_roundtrip; assumption.
+  - intros t Ht. apply in_map_iff in Ht as (s & <- & Hs). unfold B in Hs. apply in_map_iff in Hs as (x & <- & _). apply factor_line_kind.
+  - intros t Ht. apply in_map_iff in Ht as (s & <- & Hs). unfold A in Hs. apply in_map_iff in Hs as (m & <- & _). apply meta_line_kind.
+  - intros t Ht. apply in_map_iff in Ht as (s & <- & Hs). unfold B in Hs. apply in_map_iff in Hs as (x & <- & _). apply factor_line_kind.
+  - intros t Ht. apply in_map_iff in Ht as (s & <- & Hs). unfold A in Hs. apply in_map_iff in Hs as (m & <- & _). apply meta_line_kind.
+Qed.
